@@ -127,7 +127,9 @@ func decode(in any, out reflect.Value) error {
 			}
 			out.Set(reflect.ValueOf(in))
 		case reflect.Float32, reflect.Float64:
-			f, err := in.Float64()
+			// parse with the precision of the destination,
+			// so that the value is rounded to the nearest float32 before the overflow check.
+			f, err := strconv.ParseFloat(string(in), out.Type().Bits())
 			if err != nil || out.OverflowFloat(f) {
 				return fmt.Errorf("jwt: failed to convert number: overflow")
 			}
